@@ -963,6 +963,85 @@ def reuse_runs(prog, plans_by_sig, tier, ck, vio, wd, only=None):
     return execs
 
 
+# ----------------------------------------------------------------------------- interruption by a signal
+
+def signal_runs(prog, plans_by_sig, tier, ck, vio, wd, only=None):
+    """SIGTERM / SIGINT / SIGHUP delivered while the event loop runs (a batch system cancelling the job, Ctrl-C): whatever
+    the program does with the signal, the companion carries the completion marker only next to the complete event file.
+    Each interrupted run is also one execution for TraceDriver (an early end of the loop followed by the epilogue is not a
+    behaviour of Driver.tla: CloseEvents needs n = N)."""
+    import signal
+    import subprocess
+    import time as _t
+    co60 = dict(DEFAULTS, cat="background", nuc="bkgP", seed="7", count=3)
+    plan0 = dict(plans_by_sig[sig(co60)])
+    execs = []
+    sigs = [("SIGTERM", signal.SIGTERM), ("SIGINT", signal.SIGINT)] + ([("SIGHUP", signal.SIGHUP)] if tier == "thorough" else [])
+    for sname, sno in sigs:
+        if only and only.get("signal") != sname:
+            continue
+        n_req = 400000
+        plan = dict(plan0, n=n_req)
+        base = os.path.join(wd, "sig-" + sname)
+        argv, _job = concretise(co60, base, {"nucname": "Co60", "n": n_req})
+        log = base + ".log"
+        env = dict(prog.env)
+        env.update({"LD_PRELOAD": prog.shim, "KILLW_LOG": log})
+        p = subprocess.Popen([prog.exe] + argv, env=env, stdout=subprocess.PIPE, stderr=subprocess.STDOUT)
+        # wait until some records are on disk, then deliver the signal
+        t0 = _t.time()
+        while _t.time() - t0 < 60 and p.poll() is None:
+            try:
+                if os.path.getsize(base + ".d0t") > 20000:
+                    break
+            except OSError:
+                pass
+            _t.sleep(0.01)
+        if p.poll() is not None:
+            raise vlib.InfraError("signal scenario %s: the run ended before the signal could be sent" % sname)
+        p.send_signal(sno)
+        try:
+            out = p.communicate(timeout=120)[0].decode(errors="replace")
+        except subprocess.TimeoutExpired:
+            p.kill()
+            raise vlib.InfraError("signal scenario %s: the process did not end within 120 s of the signal" % sname)
+        rc = p.returncode
+        t2, c2 = read(base + ".d0t") or b"", read(base + ".d0c") or b""
+        ck.add("evaluations")
+        ck.add("signal_scenarios")
+        rep = {"kind": "signal", "signal": sname}
+        key = "signal:%s" % sname
+        pu = parse_units(t2)
+        ids = record_ids(pu) if not pu["malformed"] else []
+        what = "%s delivered during the event loop (exit status %s, %d complete records of %d on disk)" % (sname, rc, len(ids), n_req)
+        if len(ids) >= n_req:
+            raise vlib.InfraError("signal scenario %s: the run completed before the signal arrived" % sname)
+        if status_visible(c2):
+            vio.add("signal-status", key + ":status-after-interruption",
+                    "%s: the companion file carries the completion marker although the event file is incomplete" % what, rep)
+        if pu["malformed"]:
+            vio.add("signal-malformed", key + ":malformed", "%s: %s" % (what, pu["malformed"]), rep)
+        elif ids != list(range(len(ids))):
+            vio.add("signal-ids", key + ":ids", "%s: surviving record ids are not consecutive from 0" % what, rep)
+        ck.sample({"scenario": "interruption by " + sname, "exit_status": rc, "records_on_disk": len(ids), "marker": bool(status_visible(c2))}, cap=12)
+        # the (long) syscall log is not turned into a Driver trace line by line: its summary is - the loop ended at k < N records;
+        # did the epilogue run ?  (Parse, opens, InitGen, headers, k WriteEvent/Flush pairs are implied by the files.)
+        ops = shim_log(log)
+        closed_t = any(o[0] == "C" and o[1].endswith(".d0t") for o in ops)
+        if closed_t and rc == 0:
+            ev = [{"e": "Reset", "verdict": "run", "n": 3, "req": sorted(plan["req"]), "opt": sorted(plan["opt"]), "old": []},
+                  {"e": "Parse"}, {"e": "OpenFile", "f": "c"}, {"e": "OpenFile", "f": "t"}, {"e": "InitGen"}]
+            for k_ in sorted(plan["req"]):
+                ev.append({"e": "Header", "k": k_})
+            ev += [{"e": "WriteEvent", "id": 0}, {"e": "FlushT", "k": 2}, {"e": "CloseEvents"}]
+            execs.append({"events": ev, "key": key, "what": what + " - the program closed the event file after an early end of the loop and went on",
+                          "replay": rep})
+        for p_ in (base + ".d0t", base + ".d0c", log):
+            if os.path.exists(p_):
+                os.remove(p_)
+    return execs
+
+
 def strace_runs(prog, cases, wd, ck, vio):
     """uninterrupted (and a few killed) runs observed with strace -> executions for TraceDriver"""
     execs = []
@@ -1209,6 +1288,10 @@ def run(tier, replay):
     if not only or only.get("kind") == "reuse":
         execs += reuse_runs(prog, plans_by_sig, tier, ck, vio, wd, only)
 
+    # ---- 3c. interruption by a catchable signal
+    if not only or only.get("kind") == "signal":
+        execs += signal_runs(prog, plans_by_sig, tier, ck, vio, wd, only)
+
     # ---- 4. syscall order of uninterrupted runs (strace)
     if not only or only.get("kind") == "strace":
         if only:
@@ -1254,6 +1337,7 @@ def run(tier, replay):
         "CmdLine.tla's double-beta table (Mo100, Cd106, Xe136) is the reference admission rule set of C06; other published names are covered by the catalogue sweep only",
         "harness/driver_oracle.cc is 'the library API for the same seed and settings': std::default_random_engine(seed) behind std_random, exponential decay time drawn from the same engine after each shoot when an activity is given",
         "kill points are the program's write(2) calls on its two files (a SIGKILL between two writes leaves the same files as one after the earlier write); the files live on a local file system without reordering of appended bytes",
+        "interruptions by SIGTERM / SIGINT are delivered once 20 kB of records are on disk, i.e. inside the event loop (reuse and kill scenarios cover the earlier phases)",
         "kill points after each open of the two files are taken with an earlier complete run in place on the base name (reuse scenarios)",
         "internal actions (Parse, InitGen, Header, WriteEvent, WriteStatus) have no system call: the trace places them immediately before the first write that carries their output",
         "a refusal counts as detectable with a non-zero status OR an error message; parse errors exit with status 0 (counted in refusals_with_exit_status_0)",
